@@ -3,7 +3,7 @@
 Metamorphic check on the real rdflib SPARQL engine plus correspondence with the Lean model.
 
 Case (JSON):
-  {"stream": "rewrite" | "init" | "prepared" | "store" | "bgp" | "frag",
+  {"stream": "rewrite" | "init" | "prepared" | "store" | "bgp" | "frag" | "sel" | "nsctx" | "td",
    "data":  [[s,p,o,g] …]           term keys (see TERMS); g = 0 default graph, 1..3 named graphs
    "data2": [[s,p,o,g] …]           second data set (prepared stream)
    "ds":    bool                    evaluate over a Dataset (needed for GRAPH)
@@ -19,7 +19,12 @@ viol  = two evaluations that the property says must agree differ as multisets of
 obs   = (bgp / frag streams) the bag of solutions as rows of term numbers, compared with the Lean model:
         `RV.C15.evalBGP` in the written order, in a permuted order and through the model of
         reorderTriples + the dynamic sort of evalPart, on each store model; `RV.C15.evalQS` (the prepared
-        tree with its mutable `ctx` fields) for fragment queries, run repeatedly on data / data2.
+        tree with its mutable `ctx` fields) for fragment queries, run repeatedly on data / data2;
+        (td stream) `RV.C15.evalSelectTD` — the TOP-DOWN evaluator (evalPart with pushed bindings: lazy / non-lazy
+        joins, OPTIONAL with its re-check, MINUS, FILTER, BIND, GRAPH, VALUES, `_vars`, forget / remember / thaw)
+        — on the algebra this module derives from the AST by its own copy of translateGroupGraphPattern + simplify,
+        with and without initBindings, over a Graph or a Dataset with named graphs; for the `tails` shape
+        (B0, then OPTIONAL / UNION elements) both the initBindings form and the VALUES form.
 """
 import random
 import re
@@ -39,18 +44,21 @@ ID = "C15"
 LEAN_TARGETS = ["RV.C15.Props", "RV.C15.Audit"]
 AUDIT = "RV/C15/Audit.lean"
 DRIVER = "drv_c15"
-CASES = {"quick": 1050, "thorough": 30000, "search": 6000}
+CASES = {"quick": 1100, "thorough": 30000, "search": 6000}
 RULE = ("random SELECT queries (BGPs of 1-4 patterns over <=4 variables, joins of groups, UNION, OPTIONAL, FILTER, "
         "MINUS, BIND, VALUES, sub-SELECT, GRAPH, property paths, DISTINCT / ORDER BY / GROUP BY+COUNT) over 5-15 "
         "triples in 0-3 named graphs; each case poses the query in two or more ways the property calls equivalent "
         "(rewrites, initBindings vs VALUES, prepared vs fresh, store back ends incl. aggregates whose members live in "
         "different stores and share a graph name, the same undeclared-prefix text under different prefix bindings "
-        "in sequence); non-trivial = the reference "
+        "in sequence); td stream: OPTIONAL / MINUS / FILTER / BIND / VALUES / GRAPH / UNION / nested-group queries evaluated "
+        "by the Lean top-down evaluator, with and without initBindings, over a Graph or a Dataset; non-trivial = the reference "
         "evaluation has at least one solution and at least one comparison was made; distinct = distinct "
         "(stream, data, query, recipe)")
 ASSUMPTIONS = [
     "pyparsing turns the query text into the parse tree the translator expects (queries enter the Lean model as ASTs)",
     "property-path predicates are covered by the metamorphic streams only (the Lean BGP model has plain predicates)",
+    "td stream: the algebra tree handed to the Lean top-down evaluator is built by this module's own transcription of "
+    "translateGroupGraphPattern / simplify (_td_alg); `_vars`, `lazy` and the triple order are computed by the model",
     "C01: each in-memory store holds the set of triples added to it",
 ]
 TRUSTED = ["harness/c15.py generators, rewriters and canonicalisation", "lean/RV/C15/Drive.lean line protocol"]
@@ -154,6 +162,55 @@ class Gen:
         r.shuffle(out)
         return out
 
+    def optjoin(self):
+        """three joined groups; the first leaves a variable it shares with the third unbound in some solutions
+        (OPTIONAL not matched, or bound in one UNION branch only): a chain of joins is evaluated non-lazily"""
+        r = self.rng
+        s_, x, v = r.sample(self.vars, 3)
+        p1, p2, p3, p4 = (r.choice(self.preds) for _ in range(4))
+        if r.random() < 0.6:
+            first = {"k": "group", "els": [{"k": "bgp", "ts": [[s_, p1, x]]},
+                                          {"k": "optional", "g": {"k": "group", "els": [{"k": "bgp", "ts": [[s_, p2, v]]}]}}]}
+        else:
+            first = {"k": "group", "els": [{"k": "union", "gs": [
+                {"k": "group", "els": [{"k": "bgp", "ts": [[s_, p1, x]]}]},
+                {"k": "group", "els": [{"k": "bgp", "ts": [[s_, p2, v]]}]}]}]}
+        out = [{"k": "grp", "g": first},
+               {"k": "grp", "g": {"k": "group", "els": [{"k": "bgp", "ts": [[s_, p3, r.choice([x, self.var()])]]}]}},
+               {"k": "grp", "g": {"k": "group", "els": [{"k": "bgp", "ts": [[r.choice([s_, self.var()]), p4, v]]}]}}]
+        r.shuffle(out)
+        return out
+
+    def zero_path(self):
+        r = self.rng
+        p1, p2 = r.choice(self.preds), r.choice(self.preds)
+        return r.choice([["*", p1], ["?", p1], ["*", ["|", p1, p2]], ["^", ["*", p1]], ["*", p1]])
+
+    def litpath(self):
+        """a variable that takes a literal value (object of a plain pattern, VALUES, BIND) reaching the SUBJECT of a
+        zero-length-capable path pattern; binder and path pattern are separate joined groups (both operand orders)"""
+        r = self.rng
+        lits = [t for t in self.objs if t in LITS]
+        if not lits:
+            return []
+        x, y = r.sample(self.vars, 2)
+        kind = r.choice(["tp", "tp", "values", "bind"])
+        routed = {"k": "grp", "g": {"k": "group", "els": [{"k": "bgp", "ts": [[x, self.zero_path(), y]]}]}}
+        if kind == "tp":
+            binder = {"k": "grp", "g": {"k": "group", "els": [{"k": "bgp", "ts": [[r.choice([v for v in self.vars if v != x]),
+                                                                                    r.choice(self.preds), x]]}]}}
+        elif kind == "values":
+            binder = {"k": "values", "vs": [x], "rows": [[t] for t in r.sample(lits + self.subs, min(2, len(lits + self.subs)))]
+                      + [[r.choice(lits)]]}
+        else:
+            self.fresh += 1
+            x = "?b%d" % self.fresh
+            routed["g"]["els"][0]["ts"][0][0] = x
+            return [{"k": "bind", "e": r.choice(lits), "v": x}, routed]
+        out = [binder, routed]
+        r.shuffle(out)
+        return out
+
     def disjoint(self, kind):
         """MINUS / OPTIONAL / FILTER NOT EXISTS over variables that occur nowhere else in the query"""
         self.fresh += 1
@@ -229,11 +286,12 @@ class Gen:
         if not els and n_extra == 0:
             n_extra = 1
         kinds = [("bgp", 2), ("grp", 3), ("union", 3), ("optional", 3), ("minus", 2), ("filter", 4), ("bind", 2),
-                 ("values", 2), ("sub", 3), ("graph", 3 if self.ds else 0), ("multiroute", 1 if self.ok("path") else 0)]
+                 ("values", 2), ("sub", 3), ("graph", 3 if self.ds else 0), ("multiroute", 3 if self.ok("path") else 0),
+                 ("litpath", 1 if self.ok("path") else 0), ("optjoin", 2 if len(self.vars) >= 3 else 0)]
         kinds = [(k, w) for k, w in kinds if w and self.ok(k)]
         for _ in range(n_extra):
             k = r.choices([k for k, _ in kinds], [w for _, w in kinds])[0]
-            if depth <= 0 and k in ("grp", "union", "optional", "minus", "sub", "graph", "multiroute"):
+            if depth <= 0 and k in ("grp", "union", "optional", "minus", "sub", "graph", "multiroute", "litpath", "optjoin"):
                 k = "filter" if self.ok("filter") else "bgp"
             if k == "bgp":
                 els.append(self.bgp(1, 2))
@@ -250,6 +308,10 @@ class Gen:
                     els.append({"k": "minus", "g": self.group(depth - 1, True)})
             elif k == "multiroute":
                 els += self.multiroute()
+            elif k == "litpath":
+                els += self.litpath()
+            elif k == "optjoin":
+                els += self.optjoin()
             elif k == "filter":
                 els.append({"k": "filter", "e": self.expr()})
             elif k == "bind":
@@ -384,13 +446,240 @@ def gen_frag_expr(rng, g, vs, depth):
     return [rng.choice(["&&", "||"]), gen_frag_expr(rng, g, vs, depth + 1), gen_frag_expr(rng, g, vs, depth + 1)]
 
 
+def gen_td_expr(rng, g, depth):
+    """filter expressions of the Lean fragment over ANY variable of the query (in scope or not, bound or not)"""
+    x = rng.random()
+    if x < 0.3 or depth >= 2:
+        a = g.var() if rng.random() < 0.8 else rng.choice(g.subs + g.objs)
+        b = g.var() if rng.random() < 0.4 else rng.choice(g.subs + g.objs)
+        return ["sameTerm", a, b]
+    if x < 0.5:
+        return ["bound", g.var()]
+    if x < 0.77:
+        return ["!", gen_td_expr(rng, g, depth + 1)]
+    return [rng.choice(["&&", "||"]), gen_td_expr(rng, g, depth + 1), gen_td_expr(rng, g, depth + 1)]
+
+
+def td_bgp(rng, g, lo, hi):
+    ts = []
+    for _ in range(rng.randint(lo, hi)):
+        s_ = g.var() if rng.random() < 0.93 else rng.choice(g.subs)
+        p_ = g.var() if rng.random() < 0.08 else rng.choice(g.preds)
+        o_ = g.var() if rng.random() < 0.8 else rng.choice(g.objs)
+        ts.append([s_, p_, o_])
+    return {"k": "bgp", "ts": ts}
+
+
+def gen_td_data(rng, ds):
+    """denser than gen_data: 10-18 triples over three subjects, two or three predicates"""
+    subs = ["a", "b", "c"] + (["_n"] if rng.random() < 0.2 else [])
+    preds = ["p", "q"] + (["r"] if rng.random() < 0.25 else [])
+    objs = subs + subs + rng.sample(list(LITS), rng.choice([0, 1, 1]))
+    graphs = [0, 0] + ([1, 2, 3][: rng.randint(1, 2)] if ds else [])
+    seen, out = set(), []
+    for _ in range(rng.randint(10, 18)):
+        t = (rng.choice(subs), rng.choice(preds), rng.choice(objs), rng.choice(graphs))
+        if t not in seen:
+            seen.add(t)
+            out.append(list(t))
+    return out
+
+
+def gen_td_one(rng, g, els):
+    """one non-BGP element over few shared variables: small operands, so that each operator really decides rows"""
+    k = rng.choice(["optional", "optional", "optionalf", "minus", "minus", "filter", "bind", "values", "union"]
+                   + (["graph", "graph"] if g.ds else []))
+    small = lambda: {"k": "group", "els": [td_bgp(rng, g, 1, 1)]}      # noqa: E731
+    if k == "optional":
+        return {"k": "optional", "g": small()}
+    if k == "optionalf":
+        og = small()
+        og["els"].append({"k": "filter", "e": gen_td_expr(rng, g, 1)})
+        return {"k": "optional", "g": og}
+    if k == "minus":
+        return {"k": "minus", "g": small()}
+    if k == "filter":
+        return {"k": "filter", "e": gen_td_expr(rng, g, 1)}
+    if k == "bind":
+        free = [v for v in g.vars if v not in all_vars(els)]
+        if not free:
+            return {"k": "filter", "e": gen_td_expr(rng, g, 1)}
+        return {"k": "bind", "e": (g.var() if rng.random() < 0.6 else rng.choice(g.subs)), "v": rng.choice(free)}
+    if k == "values":
+        vs = rng.sample(g.vars, rng.choice([1, 1, 2]))
+        pool = g.subs + g.objs
+        return {"k": "values", "vs": vs,
+                "rows": [[(None if rng.random() < 0.15 else rng.choice(pool)) for _ in vs] for _ in range(rng.choice([1, 2, 3]))]}
+    if k == "union":
+        return {"k": "union", "gs": [small(), small()]}
+    free = [v for v in g.vars if v not in all_vars(els)]
+    return {"k": "graph", "t": rng.choice(free + free + [g.var(), "g1", "g2", "a"]), "g": small()}
+
+
+def gen_td_focus(rng, g):
+    """outermost BGP, then one to three elements, each either an operator applied at the top level or a nested group
+    `{ B X }` joined lazily — the bindings of what precedes are pushed into B and X"""
+    els = [td_bgp(rng, g, 1, 2)]
+    for _ in range(rng.choice([1, 1, 2, 2, 3])):
+        if rng.random() < 0.5:
+            inner = [td_bgp(rng, g, 1, 1)] if rng.random() < 0.8 else []
+            for _ in range(rng.choice([1, 1, 2])):
+                inner.append(gen_td_one(rng, g, inner))
+            els.append({"k": "grp", "g": {"k": "group", "els": inner}})
+        else:
+            els.append(gen_td_one(rng, g, els))
+    return {"k": "group", "els": els}
+
+
+def gen_td_push(rng, g):
+    """`B0 . { B1 X }` (or the operands the other way round, or three operands): X is one or two operators over a
+    variable `o` that B0 binds and B1 does not, and a variable `z` of B1 — what the lazy join pushes into the nested
+    group meets `_vars`, forget / remember, `ctx.clean()` and the AlreadyBound tests there"""
+    r = rng
+    vs = list(g.vars)
+    r.shuffle(vs)
+    o, z = vs[0], vs[1]
+    u = vs[2]
+    pr = lambda: r.choice(g.preds)      # noqa: E731
+    b0 = {"k": "bgp", "ts": [[o, pr(), r.choice([u, u, z])]] if r.random() < 0.7 else [[r.choice([u, z]), pr(), o]]}
+    b1 = {"k": "bgp", "ts": [[z, pr(), r.choice([u, u, r.choice(g.objs)])]]}
+    pat = lambda: [[z, pr(), o]] if r.random() < 0.6 else [[o, pr(), z]]      # noqa: E731
+    ex = lambda: r.choice([["bound", o], ["sameTerm", o, r.choice([z, u] + g.subs)], ["!", ["bound", o]],      # noqa: E731
+                           ["||", ["bound", o], ["sameTerm", z, u]], ["!", ["sameTerm", o, r.choice(g.subs)]]])
+    inner = [b1]
+    for _ in range(r.choice([1, 1, 2])):
+        k = r.choice(["optional", "optionalf", "minus", "minus", "minusf", "minusf", "filter", "filter", "bind", "bindc",
+                      "values", "union"] + (["graph", "graphv"] if g.ds else []))
+        if k == "optional":
+            inner.append({"k": "optional", "g": {"k": "group", "els": [{"k": "bgp", "ts": pat()}]}})
+        elif k == "optionalf":
+            inner.append({"k": "optional", "g": {"k": "group", "els": [{"k": "bgp", "ts": pat()}, {"k": "filter", "e": ex()}]}})
+        elif k == "minus":
+            inner.append({"k": "minus", "g": {"k": "group", "els": [{"k": "bgp", "ts": pat()}]}})
+        elif k == "minusf":
+            mp = pat() if r.random() < 0.4 else [[r.choice(g.subs), pr(), o]]
+            inner.append({"k": "minus", "g": {"k": "group", "els": [{"k": "bgp", "ts": mp}]}})
+            inner.append({"k": "filter", "e": ex()})
+        elif k == "filter":
+            inner.append({"k": "filter", "e": ex()})
+        elif k in ("bind", "bindc"):
+            if o not in all_vars(inner):
+                inner.append({"k": "bind", "e": (z if k == "bind" else r.choice(g.subs)), "v": o})
+            else:
+                inner.append({"k": "filter", "e": ex()})
+        elif k == "values":
+            inner.append({"k": "values", "vs": [o], "rows": [[t] for t in r.sample(g.subs + [None], 2)]})
+        elif k == "union":
+            inner.append({"k": "union", "gs": [{"k": "group", "els": [{"k": "bgp", "ts": pat()}]},
+                                              {"k": "group", "els": [{"k": "bgp", "ts": [[z, pr(), u]]}]}]})
+        elif k == "graph":
+            inner.append({"k": "graph", "t": r.choice(["g1", "g2"]), "g": {"k": "group", "els": [{"k": "bgp", "ts": pat()}]}})
+        else:
+            inner.append({"k": "graph", "t": o, "g": {"k": "group", "els": [{"k": "bgp", "ts": [[z, pr(), u]]}]}})
+    nested = {"k": "grp", "g": {"k": "group", "els": inner}}
+    shape = r.random()
+    if shape < 0.6:
+        els = [b0, nested]
+    elif shape < 0.8:
+        els = [nested, {"k": "grp", "g": {"k": "group", "els": [b0]}}]
+    else:       # three operands: the second join is not lazy
+        els = [b0, {"k": "grp", "g": {"k": "group", "els": [{"k": "bgp", "ts": [[u, pr(), r.choice([z, o])]]}]}}, nested]
+    return {"k": "group", "els": els}
+
+
+def gen_td_graph(rng, g):
+    """GRAPH with a variable of its own: `[B0] GRAPH ?g { B1 [X] } [GRAPH ?g { B2 } | { ?g p ?u }]` — every named graph in
+    turn, the name joined in; a second GRAPH reached with ?g bound (a graph, or not a graph of the data set)"""
+    r = rng
+    vs = list(g.vars)
+    r.shuffle(vs)
+    gv, z, u = vs[0], vs[1], vs[2]
+    pr = lambda: r.choice(g.preds)      # noqa: E731
+    inner = [{"k": "bgp", "ts": [[z, pr(), u]] if r.random() < 0.8 else [[z, pr(), r.choice(g.objs)]]}]
+    if r.random() < 0.4:
+        inner.append(gen_td_one(r, g, inner))
+    gp = {"k": "graph", "t": gv, "g": {"k": "group", "els": inner}}
+    els = []
+    if r.random() < 0.5:
+        els.append({"k": "bgp", "ts": [[r.choice([z, u]), pr(), r.choice([z, u] + g.objs)]]})
+    els.append(gp)
+    x = r.random()
+    if x < 0.3:
+        els.append({"k": "graph", "t": gv, "g": {"k": "group", "els": [{"k": "bgp", "ts": [[r.choice([z, u]), pr(), r.choice(vs)]]}]}})
+    elif x < 0.45:
+        els.append({"k": "grp", "g": {"k": "group", "els": [{"k": "bgp", "ts": [[gv, pr(), u]]}]}})
+    elif x < 0.6:
+        els.insert(0, {"k": "values", "vs": [gv], "rows": [[t] for t in r.sample(["g1", "g2", "a", None], 2)]})
+    if r.random() < 0.3:
+        r.shuffle(els)
+    return {"k": "group", "els": els}
+
+
+def gen_td_group(rng, g, depth, top=False):
+    """group of the top-down Lean model: BGPs, joined groups, UNION, OPTIONAL (with and without a filter of its own),
+    MINUS, FILTER, BIND (variable or constant), VALUES (with UNDEF), GRAPH (constant, variable, not a graph)"""
+    els = [td_bgp(rng, g, 1, 2)] if (top or rng.random() < 0.8) else []
+    kinds = [("bgp", 2), ("grp", 3), ("union", 3), ("optional", 4), ("minus", 3), ("filter", 3), ("bind", 2),
+             ("values", 2), ("graph", 3 if g.ds else 0)]
+    kinds = [(k, w) for k, w in kinds if w]
+    for _ in range(rng.choice([0, 1, 1, 2, 2, 3] if top else [0, 0, 1, 1, 2])):
+        k = rng.choices([k for k, _ in kinds], [w for _, w in kinds])[0]
+        if depth <= 0 and k in ("grp", "union", "optional", "minus", "graph"):
+            k = rng.choice(["bgp", "filter", "values"])
+        if k == "bgp":
+            els.append(td_bgp(rng, g, 1, 2))
+        elif k == "grp":
+            els.append({"k": "grp", "g": gen_td_group(rng, g, depth - 1)})
+        elif k == "union":
+            els.append({"k": "union", "gs": [gen_td_group(rng, g, depth - 1) for _ in range(rng.choice([2, 2, 3]))]})
+        elif k == "optional":
+            els.append({"k": "optional", "g": gen_td_group(rng, g, depth - 1)})
+        elif k == "minus":
+            els.append({"k": "minus", "g": gen_td_group(rng, g, depth - 1)})
+        elif k == "filter":
+            els.append({"k": "filter", "e": gen_td_expr(rng, g, 0)})
+        elif k == "bind":
+            used = all_vars(els)
+            free = [v for v in g.vars if v not in used]
+            if free:       # (the variable of a BIND must not have been used in the group before it)
+                src = g.var() if rng.random() < 0.5 else rng.choice(g.subs + g.objs)
+                els.append({"k": "bind", "e": src, "v": rng.choice(free)})
+        elif k == "values":
+            vs = rng.sample(g.vars, rng.choice([1, 1, 2]))
+            pool = g.subs + g.objs
+            rows = [[(None if rng.random() < 0.15 else rng.choice(pool)) for _ in vs] for _ in range(rng.choice([1, 2, 2, 3]))]
+            els.append({"k": "values", "vs": vs, "rows": rows})
+        elif k == "graph":
+            t = rng.choice([g.var(), g.var(), g.var(), "g1", "g1", "g2", "g3", "a"])
+            inner = gen_td_group(rng, g, depth - 1) if rng.random() < 0.5 else {"k": "group", "els": [td_bgp(rng, g, 1, 1)]}
+            els.append({"k": "graph", "t": t, "g": inner})
+    return {"k": "group", "els": els}
+
+
+def td_star_vars(node, out=None):
+    """`_findVars`: the columns of SELECT * — every variable written in the WHERE clause, of a BIND only its target"""
+    out = set() if out is None else out
+    if isinstance(node, dict):
+        if node.get("k") == "bind":
+            out.add(node["v"])
+            return out
+        for v in node.values():
+            td_star_vars(v, out)
+    elif isinstance(node, list):
+        for v in node:
+            td_star_vars(v, out)
+    elif is_var(node):
+        out.add(node)
+    return out
+
+
 def gen_case(rng, tier, i):
     """bgp / frag cases (the ones the Lean model also evaluates) are generated here; the others are generated
     inside the worker from a seed (`materialize`) because choosing a query with a non-empty answer needs
     evaluations, which would serialise the run if done in the parent process."""
-    stream = rng.choices(["rewrite", "init", "prepared", "store", "bgp", "frag", "sel", "nsctx"],
-                         [28, 11, 14, 15, 10, 9, 7, 6])[0]
-    if stream in ("bgp", "frag", "sel"):
+    stream = rng.choices(["rewrite", "init", "prepared", "store", "bgp", "frag", "sel", "nsctx", "td"],
+                         [26, 11, 13, 14, 8, 7, 6, 6, 20])[0]
+    if stream in ("bgp", "frag", "sel", "td"):
         while True:
             try:
                 return _gen_case(rng, tier, i, stream)
@@ -415,6 +704,8 @@ def materialize(case):
             break
         try:
             r = evaluate(build(out["data"], "mem", out.get("ds", False)), out["q"])
+        except core.CaseTimeout:
+            raise
         except Exception:  # noqa: BLE001
             break
         if r[0] == "ok" and r[2]:
@@ -467,6 +758,66 @@ def _gen_case(rng, tier, i, stream):
             else rng.sample(g.vars, rng.choice([1, 2]))
         init = [[v, rng.choice(g.subs + g.objs)] for v in sorted(set(ivars))]
         return {"stream": "sel", "data": data, "ds": False, "q": q, "seed": seed, "inits": init, "nvars": len(g.vars)}
+    if stream == "td":
+        ds = rng.random() < 0.4
+        data = gen_td_data(rng, ds)
+        if ds:      # a default graph dense enough for the outermost BGP: most named-graph triples are in it as well
+            have = {tuple(r[:3]) for r in data if r[3] == 0}
+            for r in list(data):
+                if r[3] != 0 and tuple(r[:3]) not in have and rng.random() < 0.7:
+                    have.add(tuple(r[:3]))
+                    data.append(r[:3] + [0])
+        g = Gen(rng, data, ds, nvars=rng.choice([3, 3, 4]))
+        tails = rng.random() < 0.25
+        if tails:
+            # the shape of `initbindings_values_td`: outermost BGP, then OPTIONAL { B [FILTER e] } / {B1} UNION {B2}
+            els = [td_bgp(rng, g, 1, 2)]
+            for _ in range(rng.choice([1, 1, 2, 3])):
+                if rng.random() < 0.6:
+                    og = {"k": "group", "els": [td_bgp(rng, g, 1, 2)]}
+                    if rng.random() < 0.4:
+                        og["els"].append({"k": "filter", "e": gen_td_expr(rng, g, 0)})
+                    els.append({"k": "optional", "g": og})
+                else:
+                    els.append({"k": "union", "gs": [{"k": "group", "els": [td_bgp(rng, g, 1, 2)]} for _ in range(2)]})
+            where = {"k": "group", "els": els}
+        elif ds and rng.random() < 0.35:
+            where = gen_td_graph(rng, g)
+        elif rng.random() < 0.5:
+            where = gen_td_push(rng, g)
+        elif rng.random() < 0.7:
+            where = gen_td_focus(rng, g)
+        else:
+            where = gen_td_group(rng, g, 2, top=True)
+        star = sorted(td_star_vars(where))
+        q = {"distinct": False, "proj": (rng.sample(g.vars, rng.randint(1, len(g.vars))) if rng.random() < 0.4 else None),
+             "where": where, "group": None, "count": None, "order": None}
+        if tails:
+            q["proj"] = list(g.vars)
+        case = {"stream": "td", "data": data, "ds": ds, "q": q, "seed": seed, "nvars": len(g.vars), "star": star}
+        if tails:
+            case["tails"] = True
+        if tails or rng.random() < 0.5:
+            ivars = rng.sample(g.vars, rng.choice([1, 1, 2]))
+            pool = [t for t in g.subs + g.objs if t != "_n"] + (["g1"] if ds else [])
+            if tails and rng.random() < 0.75:       # inside the side condition: variables of the outermost BGP
+                outer = sorted(all_vars(where["els"][0]))
+                if outer:
+                    ivars = rng.sample(outer, min(len(outer), rng.choice([1, 1, 2])))
+            inits = []
+            for v in sorted(ivars):
+                t = rng.choice(pool)
+                # mostly a value the variable can take: from a data triple fitting a pattern of the outermost BGP
+                fits = [(tp, row) for tp in where["els"][0].get("ts", []) for row in data
+                        if v in tp and (is_var(tp[1]) or tp[1] == row[1])]
+                if fits and rng.random() < 0.7:
+                    tp, row = rng.choice(fits)
+                    t = row[tp.index(v)]
+                    if t == "_n":
+                        t = rng.choice(pool)
+                inits.append([v, t])
+            case["inits"] = inits
+        return case
     if stream == "frag":
         data = gen_data(rng, False)
         g = Gen(rng, data, False, nvars=3)
@@ -490,12 +841,34 @@ def _gen_case(rng, tier, i, stream):
             kind = rng.choice(["minus", "minus", "optional", "notexists"])
             els.insert(npat if kind != "notexists" else len(els), g.disjoint(kind))
         cand = sorted(outer_bgp_vars(q) - subselect_vars(q))
-        if cand:
+        lit_objs = sorted({t[2] for t in data if t[2] in LITS})
+        first_bgp = next((e for e in q["where"]["els"] if e["k"] == "bgp"), None)
+        if lit_objs and first_bgp is not None and first_bgp is q["where"]["els"][0] and rng.random() < 0.25:
+            # the outermost BGP binds ?lx to objects (literals among them); a zero-length path starts at ?lx;
+            # the initBindings value is a literal that IS a node of the graph
+            lit = rng.choice(lit_objs)
+            pred = rng.choice([t[1] for t in data if t[2] == lit])
+            first_bgp["ts"].append([g.var(), pred, "?lx"])
+            els = q["where"]["els"]
+            npat = len([e for e in els if e["k"] != "filter"])
+            els.insert(rng.randint(1, npat), {"k": "grp", "g": {"k": "group", "els": [
+                {"k": "bgp", "ts": [["?lx", g.zero_path(), g.var()]]}]}})
+            if q["proj"] is not None and not q["count"]:
+                q["proj"] = q["proj"] + ["?lx"]
+            case["init"] = ["?lx", lit]
+        elif cand:
             subs, preds, objs = data_terms(data)
             # VALUES cannot hold a blank node
             case["init"] = [rng.choice(cand), rng.choice([x for x in subs + preds + objs if x != "_n"] or ["a"])]
     elif stream == "prepared":
         case["data2"] = gen_data(rng, ds)
+        if rng.random() < 0.5:      # a value that depends on the base in force: IRI("rel")
+            g.fresh += 1
+            bv = "?b%d" % g.fresh
+            els = q["where"]["els"]
+            els.insert(len([e for e in els if e["k"] != "filter"]), {"k": "bind", "e": ["iri", rng.choice(["d1", "x/y", "#f"])], "v": bv})
+            if q["proj"] is not None and not q["count"]:
+                q["proj"] = q["proj"] + [bv]
         if not has_kind(q, {"minus", "optional", "sub", "exists", "notexists"}) or rng.random() < 0.25:
             els = q["where"]["els"]
             npat = len([e for e in els if e["k"] != "filter"])
@@ -621,6 +994,8 @@ def expr_text(sp, e):
         return "sameTerm(%s, %s)" % (expr_text(sp, e[1]), expr_text(sp, e[2]))
     if k == "str":
         return "str(%s)" % expr_text(sp, e[1])
+    if k == "iri":      # a relative reference, resolved against the base in force
+        return '%s("%s")' % ("IRI" if len(e[1]) % 2 == 0 else "URI", e[1])
     if k == "coalesce":
         return "coalesce(%s, %s)" % (expr_text(sp, e[1]), expr_text(sp, e[2]))
     if k == "exists":
@@ -986,6 +1361,8 @@ def evaluate(g, q, mode="e", seed=0, colmap=None, init=None, prepared=None, text
         else:
             res = g.query(query_text(q, mode, seed), **kw)
         return canon(res, colmap, is_ordered(q))
+    except core.CaseTimeout:
+        raise
     except Exception as e:  # noqa: BLE001
         return ("err", _exc_name(e))
 
@@ -1099,6 +1476,8 @@ def run_impl(case):
         fresh = {"A": ref, "B": evaluate(gB, q)}
         try:
             p = prepareQuery(text)
+        except core.CaseTimeout:
+            raise
         except Exception as e:  # noqa: BLE001
             p = None
             if ref[0] != "err":
@@ -1112,6 +1491,8 @@ def run_impl(case):
                     it = iter(gA.query(p))
                     next(it, None)
                     case_keepalive = it  # noqa: F841
+                except core.CaseTimeout:
+                    raise
                 except Exception:  # noqa: BLE001
                     pass
             if sched == 2:
@@ -1142,6 +1523,8 @@ def run_impl(case):
                         if got != want:
                             viol.append("prepared: interleaved evaluation on %s gives %s, fresh gives %s"
                                         % (nm, _short(got), _short(want)))
+                except core.CaseTimeout:
+                    raise
                 except Exception as e:  # noqa: BLE001
                     if ref[0] == "ok" and fresh["B"][0] == "ok":
                         viol.append("prepared: interleaved evaluation raises %s" % _exc_name(e))
@@ -1156,6 +1539,8 @@ def run_impl(case):
                         pass
                 except _FlakyError:
                     stats["prep_midway_error"] = 1
+                except core.CaseTimeout:
+                    raise
                 except Exception:  # noqa: BLE001
                     stats["prep_midway_other_error"] = 1
             init = None
@@ -1164,6 +1549,29 @@ def run_impl(case):
                 subs, _preds, objs = data_terms(data)
                 init = {rng.choice(cand)[1:]: TERMS[rng.choice(subs + objs)]}   # a bnode value is fine here
                 stats["prep_with_init"] = 1
+            # the `base=` keyword varied between evaluations of the one prepared object; each answer against a
+            # freshly prepared copy evaluated with the same keyword
+            if has_kind(q, {"iri"}):
+                stats["prep_base_varied"] = 1
+                for k, b in enumerate(["http://a.example/", None, "http://b.example/dir/", "http://a.example/", None]):
+                    kw = {"base": b} if b else {}
+                    try:
+                        got = canon(gA.query(p, **kw), None, is_ordered(q))
+                    except core.CaseTimeout:
+                        raise
+                    except Exception as e:  # noqa: BLE001
+                        got = ("err", _exc_name(e))
+                    try:
+                        want = canon(gA.query(prepareQuery(text), **kw), None, is_ordered(q))
+                    except core.CaseTimeout:
+                        raise
+                    except Exception as e:  # noqa: BLE001
+                        want = ("err", _exc_name(e))
+                    compared += 1
+                    if got != want:
+                        viol.append("prepared-base: evaluation %d of the prepared query with base=%s gives %s, a freshly "
+                                    "prepared copy evaluated the same way gives %s" % (k + 1, b, _short(got), _short(want)))
+                        break
             for k, nm in enumerate(["A", "A", "A", "B", "A"]):
                 if init is not None and k == 1:
                     got = evaluate(gs[nm], q, prepared=p, init=init)
@@ -1219,6 +1627,8 @@ def run_impl(case):
                                             "another evaluation of it, gives %d rows %s; a fresh parse gives %d rows %s"
                                             % (what, len(got), list(got)[:3], len(w), list(w)[:3]))
                                 break
+                    except core.CaseTimeout:
+                        raise
                     except Exception as e:  # noqa: BLE001
                         a_ = evaluate(gA, q, init=iba)
                         b_ = evaluate(gA, q, init=ibb)
@@ -1317,6 +1727,53 @@ def run_impl(case):
                 viol.append("prepared: prepared fragment query on %s gives %s, fresh gives %s"
                             % (nm, _short(r), _short(fresh[nm])))
 
+    elif stream == "td":
+        vs = VARS[: case["nvars"]]
+        inits = case.get("inits") or []
+        ib = {v[1:]: TERMS[t] for v, t in inits} or None
+        a = evaluate(base_g, q, init=ib)
+        obs.append(rows_line(a, vs))
+        stats["td_with_init" if ib else "td_no_init"] = 1
+        if a[0] == "ok" and a[2]:
+            stats["td_nonempty"] = 1
+        if a[0] == "err":
+            stats["td_error"] = 1
+        # the same data behind another store (`td_store_irrelevant`)
+        if not ds:      # (a Dataset needs a graph-aware store: Memory only)
+            kind = rng.choice(["aud", "simple"])
+            c2 = evaluate(build(data, kind, ds, order_seed=seed), q, init=ib)
+            compared += 1
+            if c2 != a:
+                viol.append("store-%s: the top-down fragment query over %s gives %s, over Memory %s"
+                            % (kind, kind, _short(c2), _short(a)))
+        if case.get("tails"):
+            # the VALUES form (row at the end of the group, no initBindings): `initbindings_values_td`
+            qv = _copy(q)
+            qv["where"]["els"].append({"k": "values", "vs": [v for v, _t in inits], "rows": [[t for _v, t in inits]]})
+            bv = evaluate(base_g, qv)
+            obs.append(rows_line(bv, vs))
+            outer = all_vars(q["where"]["els"][0])
+            ok = all(v in outer for v, _t in inits)
+            stats["td_tails_side_condition_" + ("met" if ok else "unmet")] = 1
+            stats["td_tails_unions_%d" % min(2, sum(1 for e in q["where"]["els"] if e["k"] == "union"))] = 1
+            compared += 1
+            if ok and a != bv:
+                viol.append("init: initBindings %s give %s, the VALUES row at the end of the group gives %s"
+                            % (inits, _short(a), _short(bv)))
+            if a != bv:
+                stats["td_tails_init_differs_from_values"] = 1
+        # the same query with every BGP shuffled and the variables renamed consistently, same initBindings
+        # (renamed): the theorems `td_bgp_reorder` / `td_rename_equivariant`, asked of the implementation
+        q2, colmap, mode, sseed = apply_rewrite(q, "bgp_shuffle", seed)
+        q3, colmap3, mode3, sseed3 = apply_rewrite(q2, "rename", seed + 1)
+        inv = {v: k for k, v in (colmap3 or {}).items()}
+        ib3 = {inv.get(v, v)[1:]: TERMS[t] for v, t in inits} or None
+        b = evaluate(base_g, q3, mode3, sseed3, colmap3, init=ib3)
+        compared += 1
+        if a != b:
+            viol.append("td-rewrite: BGPs shuffled and variables renamed [%s] with initBindings %s gives %s, the "
+                        "query as written with %s gives %s" % (query_text(q3, mode3, sseed3), ib3, _short(b), ib, _short(a)))
+
     elif stream == "nsctx":
         # the text uses `ux:` without declaring it; the SAME text is evaluated, as a string, against graphs /
         # initNs that give `ux:` different namespaces, one after the other in this process.  Each answer must
@@ -1342,6 +1799,8 @@ def run_impl(case):
                 try:
                     pq = prepareQuery(text, initNs={"ux": URIRef(NS)})
                     got, ns = evaluate(gB, q, prepared=pq), NS
+                except core.CaseTimeout:
+                    raise
                 except Exception as e:  # noqa: BLE001
                     got, ns = ("err", _exc_name(e)), NS
                 g = gB
@@ -1387,6 +1846,8 @@ def run_impl(case):
                     if way == "prepare+initNs":
                         return evaluate(gD, q, prepared=prepareQuery(text_d, initNs=other))
                     return evaluate(gD, q, text=text_d, initNs=other)
+                except core.CaseTimeout:
+                    raise
                 except Exception as e:  # noqa: BLE001
                     return ("err", _exc_name(e))
             ways = ["prepare", "prepare+initNs", "query+initNs"]
@@ -1456,7 +1917,8 @@ def rows_line(r, vs):
     rows = []
     for row in r[2]:
         d = dict(row)
-        rows.append(",".join(str(N3_NUM[d[v]]) if v in d else "-" for v in vs))
+        # (a term the data does not contain — e.g. the name of the default graph — is 0: never a model term)
+        rows.append(",".join(str(N3_NUM.get(d[v], 0)) if v in d else "-" for v in vs))
     return "rows " + " ".join(sorted(rows))
 
 
@@ -1516,10 +1978,108 @@ def _group_tokens(g, vs):
     return toks
 
 
+def _td_alg(g):
+    """the algebra rdflib builds for a group (translateGroupGraphPattern, then simplify), as nested tuples:
+    FILTERs collected first, adjacent triple blocks merged, left-deep from an empty BGP, joins with an empty BGP
+    dropped"""
+    filt = None
+    parts = []
+    for e in g["els"]:
+        k = e["k"]
+        if k == "filter":
+            filt = e["e"] if filt is None else ["&&", filt, e["e"]]
+        elif k == "bgp" and parts and parts[-1]["k"] == "bgp":
+            parts[-1] = {"k": "bgp", "ts": parts[-1]["ts"] + e["ts"]}
+        else:
+            parts.append(e)
+
+    def join(a, b):
+        if a[0] == "bgp" and not a[1]:
+            return b
+        if b[0] == "bgp" and not b[1]:
+            return a
+        return ("join", a, b)
+    G = ("bgp", [])
+    for e in parts:
+        k = e["k"]
+        if k == "bgp":
+            G = join(G, ("bgp", list(e["ts"])))
+        elif k == "optional":
+            A = _td_alg(e["g"])
+            G = ("ljoin", A[1], G, A[2]) if A[0] == "filter" else ("ljoin", None, G, A)
+        elif k == "minus":
+            G = ("minus", G, _td_alg(e["g"]))
+        elif k == "grp":
+            G = join(G, _td_alg(e["g"]))
+        elif k == "union":
+            U = _td_alg(e["gs"][0])
+            for b in e["gs"][1:]:
+                U = ("union", U, _td_alg(b))
+            G = join(G, U)
+        elif k == "graph":
+            G = join(G, ("graph", e["t"], _td_alg(e["g"])))
+        elif k == "values":
+            G = join(G, ("values", e["vs"], e["rows"]))
+        elif k == "bind":
+            G = ("extend", e["v"], e["e"], G)
+        else:
+            raise ValueError(k)
+    if filt is not None:
+        G = ("filter", filt, G)
+    return G
+
+
+def _td_tokens(a, vs):
+    k = a[0]
+    if k == "bgp":
+        out = ["bgp", str(len(a[1]))]
+        for s, p, o in a[1]:
+            out += [_pt(s, vs), _pt(p, vs), _pt(o, vs)]
+        return out
+    if k in ("join", "union", "minus"):
+        return [k] + _td_tokens(a[1], vs) + _td_tokens(a[2], vs)
+    if k == "ljoin":
+        return ["ljoin"] + (["none"] if a[1] is None else ["e"] + _expr_tokens(a[1], vs)) \
+            + _td_tokens(a[2], vs) + _td_tokens(a[3], vs)
+    if k == "filter":
+        return ["filter"] + _expr_tokens(a[1], vs) + _td_tokens(a[2], vs)
+    if k == "extend":
+        return ["extend", _pt(a[1], vs), _pt(a[2], vs)] + _td_tokens(a[3], vs)
+    if k == "graph":
+        return ["graph", _pt(a[1], vs)] + _td_tokens(a[2], vs)
+    if k == "values":
+        out = ["values", str(len(a[2]))]
+        for r in a[2]:
+            d = dict(zip(a[1], r))
+            out += [("-" if d.get(v) is None else str(TERM_NUM[d[v]])) for v in vs]
+        return out
+    raise ValueError(k)
+
+
 def model_lines(case):
     stream = case["stream"]
     if "lazy" in case:
         return []
+    if stream == "td":
+        q, data = case["q"], case["data"]
+        vs = VARS[: case["nvars"]]
+        lits = [TERM_NUM[k] for k in LITS]
+        lines = ["reset %d %d %d" % (len(vs), min(lits), max(lits))]
+        for s, p, o, c in data:
+            lines.append("quad %d %d %d %d" % (TERM_NUM[s], TERM_NUM[p], TERM_NUM[o],
+                                               TERM_NUM[GRAPH_IRI[c]] if (c and case.get("ds")) else 0))
+        lines.append("p " + " ".join(_td_tokens(_td_alg(q["where"]), vs)))
+        for v, t in case.get("inits") or []:
+            lines.append("init %d %d" % (vs.index(v), TERM_NUM[t]))
+        pv = case["star"] if q["proj"] is None else q["proj"]
+        lines.append("evaltd %d %s" % (len(pv), " ".join(str(vs.index(v)) for v in pv)))
+        if case.get("tails"):
+            inits = case["inits"]
+            qv = _copy(q)
+            qv["where"]["els"].append({"k": "values", "vs": [v for v, _t in inits], "rows": [[t for _v, t in inits]]})
+            lines += ["noinit", "p " + " ".join(_td_tokens(_td_alg(qv["where"]), vs)),
+                      "evaltd %d %s" % (len(pv), " ".join(str(vs.index(v)) for v in pv))]
+        return lines
     if stream not in ("bgp", "frag", "sel"):
         return []
     q, data = case["q"], case["data"]
@@ -1697,13 +2257,17 @@ def _tags(result):
     return {v.split(":")[0] for v in result["viol"]}
 
 
+def _has_zero_mod(p_):
+    return isinstance(p_, list) and (p_[0] in ("*", "?") or any(_has_zero_mod(x) for x in p_[1:]))
+
+
 def _zero_path_end_vars(node):
     """variables at an end of a triple pattern whose predicate is `p*` or `p?`"""
     out = set()
     if isinstance(node, dict):
         if node.get("k") == "bgp":
             for s_, p_, o_ in node["ts"]:
-                if isinstance(p_, list) and p_[0] in ("*", "?"):
+                if isinstance(p_, list) and _has_zero_mod(p_):
                     out |= {x for x in (s_, o_) if is_var(x)}
         for v in node.values():
             out |= _zero_path_end_vars(v)
@@ -2021,7 +2585,31 @@ def _m_values_filter_pushed(case, result):
             and _values_scope_hazard(case["q"]["where"]))
 
 
-MATCHERS = {"values_filter_pushed": _m_values_filter_pushed, "optional_recheck": _m_optional_recheck, "values_var_masked": _m_values_var_masked, "init_nested_optional": _m_init_nested_optional, "graph_var_nongraph": _m_graph_var_nongraph,
+def _minus_values_vars(node, inside=False):
+    """variables bound by a VALUES block somewhere inside the right-hand side of a MINUS"""
+    out = set()
+    if isinstance(node, dict):
+        if inside and node.get("k") == "values":
+            out |= set(node["vs"])
+        for k, v in node.items():
+            out |= _minus_values_vars(v, inside or (node.get("k") == "minus" and k == "g"))
+    elif isinstance(node, list):
+        for v in node:
+            out |= _minus_values_vars(v, inside)
+    return out
+
+
+def _m_init_minus_values(case, result):
+    """C15-K9 (C04-K2 reached through the initBindings clause): the initBindings variable is bound by a VALUES
+    block inside the right-hand side of a MINUS: `_vars` of that side lacks it, so with an outer VALUES row MINUS
+    compares without it and removes a solution whose ?v disagrees; with initBindings the right-hand side is
+    evaluated in a context re-seeded with ?v and the disagreeing VALUES row never arises."""
+    case = materialize(case)
+    return (case["stream"] == "init" and _tags(result) == {"init"} and bool(case.get("init"))
+            and case["init"][0] in _minus_values_vars(case["q"]["where"]))
+
+
+MATCHERS = {"init_minus_values": _m_init_minus_values, "values_filter_pushed": _m_values_filter_pushed, "optional_recheck": _m_optional_recheck, "values_var_masked": _m_values_var_masked, "init_nested_optional": _m_init_nested_optional, "graph_var_nongraph": _m_graph_var_nongraph,
             "maybe_bound_filter": _m_maybe_bound_filter, "zero_path_nonnode": _m_zero_path_nonnode, "init_nested_expr": _m_init_nested_expr,
             # matchers of repaired defects (their witnesses must pass; kept for documentation)
             "fixed": lambda case, result: False}
